@@ -623,10 +623,14 @@ class Miller(Vector3d):
         self._compatible_with(other, raise_error=True)
 
         if use_symmetry:
-            other2 = other.symmetrise(unique=True)
-            cosines = self.dot_outer(other2) / (
-                self.norm[..., np.newaxis] * other2.norm[np.newaxis, ...]
-            )
+            # Vectors symmetrically equivalent to each of the other
+            # vectors along an added last axis, so that the vectors
+            # are broadcast against the other vectors as when not
+            # using symmetry
+            other2 = self.phase.point_group.outer(other)
+            other2 = other2.transpose(*range(1, other2.ndim), 0)
+            self2 = self.reshape(*self.shape, 1)
+            cosines = self2.dot(other2) / (self2.norm * other2.norm)
             cosines = np.round(cosines, 12)
             angles = np.min(np.arccos(cosines), axis=-1)
         else:
